@@ -811,8 +811,9 @@ def e2e_case(rng, nvalues, with_proxy, res, driver):
     entry, its time stamp) is judged by the Lean monitor (`judge_e2e`: Spec.C12.writeOkB with Python's `==` as PVal.pyEq).
     -> list of failures {'what', 'sig', 'detail'}"""
     from frappy.client import SecopClient
-    from vlib.dtcodec import fj
+    from vlib.dtcodec import fj, dt_to_tree
     fails = []
+    models = []         # per pending write: request for the model's account (None: not compared)
     dlog = DriverLog()
     node, info = gen_node(rng, dlog, writable_all=True, nmods=rng.randint(1, 2))
     srv = Served(node)
@@ -843,6 +844,7 @@ def e2e_case(rng, nvalues, with_proxy, res, driver):
             back = rng.choice([None, None, gen(rng)])       # the driver answers with a value of its own (plain as well)
             dlog.returns[(m, p)] = (lambda x, b=back: b) if back is not None else None
             del dlog.writes[:]
+            prev = node.modules[m].parameters[p].value      # what the parameter holds: `previous` of the node's validation
             res.evaluations += 1
             res.count('e2e.type=' + type(dt).__name__)
             via = 'proxy' if proxies and rng.random() < 0.5 else 'client'
@@ -871,6 +873,12 @@ def e2e_case(rng, nvalues, with_proxy, res, driver):
                    'ret': None if err is not None else pval(got_back),
                    'cache': None if entry.readerror is not None else pval(entry.value),
                    'ts': fj(ts) if isinstance(ts, (int, float)) and not isinstance(ts, bool) else None, 'clock': fj(t_after + 1e-6)}
+            mreq = None
+            if via == 'client':     # correspondence: the datatype model's account of the same write
+                cdt = client.modules[m]['parameters'][p]['datatype']
+                mreq = {'p': PROP, 'k': 'e2e', 'dt': dt_to_tree(dt), 'cdt': dt_to_tree(cdt), 'prev': pval(prev), 'passed': pval(v),
+                        'ret': None if back is None else pval(back)}
+            models.append(mreq)
             pending.append((req, f'{via}: wrote {v!r} to {m}:{p} ({dt!r}); driver got {w!r}, returned {returned!r}; setParameter '
                                  f'gave {got_back!r} (error {err!r}); cache has {entry!r} (ts {ts!r} vs clock {t_after!r})',
                             {'type': repr(dt), 'tname': type(dt).__name__, 'value': repr(v), 'via': via,
@@ -904,16 +912,25 @@ def e2e_case(rng, nvalues, with_proxy, res, driver):
         if pnode is not None:
             close_proxy_node(pnode)
         srv.close()
-    answers = driver.batch([r for r, _t, _d in pending] + [r for r, *_ in errobs])
-    for (req, text, detail), a in zip(pending, answers):
+    mreqs = [r for r in models if r is not None]
+    answers = driver.batch([r for r, _t, _d in pending] + [r for r, *_ in errobs] + mreqs)
+    manswers = iter(answers[len(pending) + len(errobs):])
+    for (req, text, detail), a, mreq in zip(pending, answers, models):
         if 'driver_error' in a:
             raise RuntimeError(f'driver error: {a} for {req}')
+        if mreq is not None:
+            ma = next(manswers)
+            if 'driver_error' in ma:
+                raise RuntimeError(f'driver error: {ma} for {mreq}')
+            impl = {'got': req['got'][0] if len(req['got']) == 1 else None, 'cache': req['cache']}
+            if res_model_ok(res) and ma != impl:
+                res.disagreements.append({'case': {'kind': 'e2e', 'what': text, 'request': mreq}, 'model': ma, 'impl': impl})
         if a['ok']:
             res.nontriv(detail.pop('nt'))
         else:
             detail.pop('nt')
             fails.append({'sig': f'C12:e2e:{a["which"]}:{detail["tname"]}', 'what': text, 'detail': detail})
-    for (req, clsname, text, m, shown), a in zip(errobs, answers[len(pending):]):
+    for (req, clsname, text, m, shown), a in zip(errobs, answers[len(pending):len(pending) + len(errobs)]):
         if 'driver_error' in a:
             raise RuntimeError(f'driver error: {a} for {req}')
         if a['ok']:
@@ -923,6 +940,10 @@ def e2e_case(rng, nvalues, with_proxy, res, driver):
                           'what': f'driver raised {clsname}({text!r}) in read_bad of {m}; readParameter gave {shown}',
                           'detail': {'class': clsname, 'text': text}})
     return fails
+
+
+def res_model_ok(res):
+    return getattr(res, 'model_ok', True)
 
 
 def make_proxy_node(node, port, info):
@@ -1159,6 +1180,7 @@ def run(ctx):
     done = 0
     import random
     idx = 0
+    res.model_ok = ctx.model_ok
     while done < nvals:
         sub = f'{PROP}:e2e:{ctx.seed}:{int(ctx.escalated)}:{ctx.tier}:{idx}'      # every node has its own PRNG: replayable alone
         with_proxy = idx % 2 == 1
